@@ -79,12 +79,14 @@ theorem run_pframe (ρ : List FunDef) : ∀ (f : Nat) (j : Job) (s : St), PFrame
       split
       · split
         · ihp ih (.node b) s
-          have key : ∀ u : St, PFrame u (match u.objAt il with
-               | .int j => run ρ f (.cforL il hi b) (u.setObj il (.int (j + 1)))
+          have key : ∀ u : St, PFrame u (match u.val il with
+               | .int j => if (u.cell il).const then ((.thrown (.evalErr .assignConst), u) : R) else run ρ f (.cforL il hi b) (u.setVal il (.int (j + 1)))
                | _ => (.thrown (.evalErr .other), u)).2 := by
             intro u
             split
-            · exact (PFrame.of_eq (s := u) (t := u.setObj il _) rfl rfl).trans (ih _ _)
+            · split
+              · exact PFrame.refl u
+              · exact (PFrame.of_eq (s := u) (t := u.setVal il _) rfl rfl).trans (ih _ _)
             · exact PFrame.refl u
           cases oo <;> (try simp only []) <;> first | exact hh.trans (key _) | exact hh
         · exact pframe_allocVal _ _ _ _
@@ -334,7 +336,7 @@ theorem run_pframe (ρ : List FunDef) : ∀ (f : Nat) (j : Job) (s : St), PFrame
         · exact pframe_alloc _ _ _ _
         · rename_i s2 h2
           have e2 := (pframe_alloc t (.int lo) false false).trans ((PFrame.of_addObject h2))
-          ihp ih (.cforL t.objs.length hi b) s2
+          ihp ih (.cforL (t.allocV (.int lo)).1 hi b) s2
           cases oo <;> (try simp only []) <;> first | exact e2.trans hh | exact (e2.trans hh).trans (pframe_allocVal _ _ _ _)
       | brk => exact PFrame.refl s
       | cont => exact PFrame.refl s
